@@ -19,7 +19,7 @@ func init() { checks["C18"] = c18 }
 func c18(args []string) {
 	c := chk.New("C18", "exploration", args)
 	c.Build(false)
-	c.Rule("src(n) -> 1 or 2 upstream processes (random task durations) -> recorder -> StreamToSubStream -> task with {i:x|join:SEP}: sub-stream lengths {0,1,2,B,B+1,3B} for SCIPIPE_BUFSIZE B in {1,3} (thorough also 128), separators {' ', ',', ':', ' -I '} (and, printed by printf, separators containing a newline; the same joined port used three times in one command with different modifiers), maxConcurrentTasks in {1,4}; without modifiers the task command is vcmd, which opens every path it was given from its working directory; with modifiers (%.txt, s/x/y/, basename) the command is an echo and only the strings are judged; oracle: exactly one start event of the joining process, the member paths in its argv == the sequence the recorder in front of the sub-stream saw (arrival order), all readable, the recorded command contains them joined by exactly SEP with modifiers applied to each member, audit Upstream keys == member paths and each names the upstream task; plus close storms: 2-8 one-file sources fan into a StreamToSubStream, built and run 1500-3000 times inside one child process (hooks passive in most of them) - exactly one sub-stream must come out per run. distinct_nontrivial = distinct (length, B, separator, modifiers, fan-in, config) cases")
+	c.Rule("src(n) -> 1 or 2 upstream processes (random task durations) -> recorder -> StreamToSubStream -> task with {i:x|join:SEP}: sub-stream lengths {0,1,2,B,B+1,3B} for SCIPIPE_BUFSIZE B in {1,3} (thorough also 128), separators {' ', ',', ':', ' -I '} (and, printed by printf, separators containing a newline; the same joined port used three times in one command with different modifiers; a Go function writing through OutIP().Write() in a task with a joined in-port; two sub-streams reaching one joined in-port with default output names), maxConcurrentTasks in {1,4}; without modifiers the task command is vcmd, which opens every path it was given from its working directory; with modifiers (%.txt, s/x/y/, basename) the command is an echo and only the strings are judged; oracle: exactly one start event of the joining process, the member paths in its argv == the sequence the recorder in front of the sub-stream saw (arrival order), all readable, the recorded command contains them joined by exactly SEP with modifiers applied to each member, audit Upstream keys == member paths and each names the upstream task; plus close storms: 2-8 one-file sources fan into a StreamToSubStream, built and run 1500-3000 times inside one child process (hooks passive in most of them) - exactly one sub-stream must come out per run. distinct_nontrivial = distinct (length, B, separator, modifiers, fan-in, config) cases")
 	c.Assume("with two upstream processes the arrival order is whatever the recorder saw; it is not predicted")
 	rng := c.Rand("c18")
 	type job struct {
@@ -350,7 +350,7 @@ func c18corners(c *chk.Ctx) {
 	}
 	var jobs []*job
 	for _, n := range []int{1, 3, 5} {
-		for _, kind := range []string{"newline", "newline-space", "twice"} {
+		for _, kind := range []string{"newline", "newline-space", "twice", "gofunc", "two-substreams"} {
 			jobs = append(jobs, &job{n, kind, []int{1, 3}[n%2]})
 		}
 	}
@@ -380,9 +380,23 @@ func c18corners(c *chk.Ctx) {
 		case "twice":
 			sep = ","
 			jn.Cmd = "echo J:{i:in|join:,}:J K:{i:in|join:,|s/U/V/}:K L:{i:in|join:,|basename}:L > {o:out}"
+		case "gofunc":
+			// a Go function that writes its output through OutIP().Write() in a task with a joined in-port
+			jn.Kind = spec.KGoFunc
+			jn.WriteAPI = true
+			jn.Cmd = spec.BuildCmd("JN", []spec.PortDecl{{Name: "in", Join: "space"}}, []spec.PortDecl{{Name: "out"}}, nil, nil, nil)
+		case "two-substreams":
+			// two sub-streams reach the same joined in-port: two tasks, with default output names
+			jn.Cmd = spec.BuildCmd("JN", []spec.PortDecl{{Name: "in", Join: "space"}}, []spec.PortDecl{{Name: "out"}}, nil, nil, nil)
+			jn.Outs = nil
 		}
 		s.Procs = append(s.Procs, jn)
 		s.Conns = append(s.Conns, &spec.Conn{From: "src.out", To: "U.in"}, &spec.Conn{From: "U.out", To: "REC.in"}, &spec.Conn{From: "REC.out", To: "SS.in"}, &spec.Conn{From: "SS.substream", To: "JN.in"})
+		if j.kind == "two-substreams" {
+			s.Procs = append(s.Procs, &spec.Proc{Name: "U2", Kind: spec.KCmd, Cmd: spec.BuildCmd("U2", []spec.PortDecl{{Name: "in"}}, []spec.PortDecl{{Name: "out"}}, nil, nil, nil),
+				Outs: []*spec.Out{{Port: "out", Pattern: "ud2/{i:in|basename}.U2.out"}}}, &spec.Proc{Name: "SS2", Kind: spec.KSubStream})
+			s.Conns = append(s.Conns, &spec.Conn{From: "src.out", To: "U2.in"}, &spec.Conn{From: "U2.out", To: "SS2.in"}, &spec.Conn{From: "SS2.substream", To: "JN.in"})
+		}
 		desc := map[string]interface{}{"corner": j.kind, "length": j.n, "bufsize": j.b, "spec": s}
 		res := execSpec(c, root, s, Cfg{Buf: j.b, Procs: 2}, nil, false, 0)
 		if res.Hang != "" {
@@ -398,6 +412,49 @@ func c18corners(c *chk.Ctx) {
 			return
 		}
 		arrived := recPaths(mon.Index(res.Trace), "REC")
+		if j.kind == "gofunc" || j.kind == "two-substreams" {
+			ti := mon.Index(res.Trace)
+			want := map[string]int{"gofunc": 1, "two-substreams": 2}[j.kind]
+			outPaths := map[string]bool{}
+			n := 0
+			for _, evs := range ti.Starts {
+				for _, e := range evs {
+					if e.ID != "JN" {
+						continue
+					}
+					n++
+					for _, kv := range vproto.Parse(e.Argv).Outs {
+						outPaths[kv.V] = true
+					}
+				}
+			}
+			var ps []string
+			if n != want {
+				ps = append(ps, fmt.Sprintf("the joining process executed %d task(s), expected %d", n, want))
+			}
+			if j.kind == "two-substreams" && len(outPaths) != 2 {
+				ps = append(ps, fmt.Sprintf("the two tasks were given %d distinct output path(s): %v", len(outPaths), outPaths))
+			}
+			for p := range outPaths {
+				if _, err := os.Stat(filepath.Join(res.Wd, p)); err != nil {
+					ps = append(ps, "output "+p+" of the joining process does not exist")
+				} else if a, err := mon.LoadAudit(filepath.Join(res.Wd, p+".audit.json")); err != nil || len(a.Upstream) != j.n {
+					ps = append(ps, fmt.Sprintf("audit file of %s unreadable or without the %d members as Upstream (%v)", p, j.n, err))
+				}
+			}
+			if j.kind == "gofunc" {
+				if _, err := os.Stat(filepath.Join(res.Wd, "joined.out")); err != nil {
+					ps = append(ps, "joined.out written by the Go function through OutIP().Write() does not exist")
+				}
+			}
+			if len(ps) > 0 {
+				c.Violation("joined-task-outputs", j.kind+": "+strings.Join(ps, "; "), desc)
+				return
+			}
+			c.Count("members_compared", j.n)
+			c.Nontrivial(fmt.Sprintf("corner|%s|%d|%d", j.kind, j.n, j.b))
+			return
+		}
 		var plain, subst, base []string
 		for _, m := range arrived {
 			plain = append(plain, "../"+m)
